@@ -83,10 +83,11 @@ class FakeQueue:
 
     _counter = 0
 
-    def __init__(self, module):
+    def __init__(self, module, maxsize=0):
         FakeQueue._counter += 1
         self._id = FakeQueue._counter
         self._module = module
+        self._maxsize = int(maxsize or 0)
         self._items = collections.deque()
         self._cond = threading.Condition()
         self.consumer_waiting = False
@@ -99,6 +100,13 @@ class FakeQueue:
     def put(self, item):
         item = _roundtrip(item)
         with self._cond:
+            # bounded queue: block while full; if no consumer process is alive any more,
+            # nobody will ever make room -> structural deadlock of the producer
+            while self._maxsize > 0 and len(self._items) >= self._maxsize:
+                if not any(p.is_alive() for p in self._module.processes):
+                    self._module.stats.deadlock = True
+                    raise Deadlock("queue.put() on a full queue that no live process consumes")
+                self._cond.wait(0.002)
             self._items.append(item)
             self._cond.notify_all()
 
@@ -111,7 +119,9 @@ class FakeQueue:
                     raise Deadlock("queue.get() on an empty queue that no one can fill")
                 self._cond.wait()
             self.consumer_waiting = False
-            return self._items.popleft()
+            item = self._items.popleft()
+            self._cond.notify_all()
+            return item
 
     def qsize(self):
         return len(self._items)
@@ -127,8 +137,8 @@ class FakeManager:
     def __exit__(self, *a):
         return False
 
-    def Queue(self):
-        q = FakeQueue(self._module)
+    def Queue(self, maxsize=0):
+        q = FakeQueue(self._module, maxsize)
         self._module.queues.append(q)
         return q
 
@@ -265,6 +275,7 @@ class FakeMultiprocessing:
         self.tape = tape if isinstance(tape, Tape) else Tape(tape)
         self.stats = Stats()
         self.queues = []
+        self.processes = []
 
     def Pool(self, processes=None, *a, **k):
         return FakePool(self, processes)
@@ -273,7 +284,9 @@ class FakeMultiprocessing:
         return FakeManager(self)
 
     def Process(self, target=None, args=(), kwargs=None, **k):
-        return FakeProcess(self, target, args, kwargs)
+        p = FakeProcess(self, target, args, kwargs)
+        self.processes.append(p)
+        return p
 
     def cpu_count(self):
         return 64
